@@ -256,7 +256,7 @@ def prefixZeros (e : Env) (b : Bytes) (startIndex : Nat) : Flow (Bytes × Nat) :
                 match charToDigit ch e.radix with
                 | some _ => .error (err "InvalidLeadingZeros" index)
                 | none => .error (invalidDigit e 0 (b.cursor + 1) (b.iterCount e.c .integer))
-              | .ok (none, b) => .error (intoOk e 0 index (b.iterCount e.c .integer))
+              | .ok (none, b) => .error (intoOk e 0 b.cursor (b.iterCount e.c .integer))
         else .ok (b, startIndex)
   else .ok (b, startIndex)
 
